@@ -309,6 +309,23 @@ def check(chk):
     chk.ob("DOM-20", "a tilt posts the tilt event", ok, f.where(), construct=f.ident, text="tilt event")
     from sa.helpers import game_ended_only_through_its_api
     game_ended_only_through_its_api(chk, "DOM-20")
+    # when the tilt is over (settle time passed) the game's tilted flag is cleared - whenever there is a game, whatever else is pending:
+    # a flag left set makes tilt() and tilt_warning() return early for the rest of the game (rules stay installed on a tilted machine)
+    td = repo.func("mpf/modes/tilt/code/tilt.py", "Tilt._tilt_done")
+    chk.analysed(td)
+    tcfg = td.cfg()
+    clr_ = [n for n in tcfg.nodes if n.kind == "stmt" and isinstance(n.ast, ast.Assign) and src(n.ast.targets[0]) == "self.machine.game.tilted" and src(n.ast.value) == "False"]
+    from sa.cfg import canon_set, canon_fact
+    from sa.helpers import positive
+    ok = len(clr_) == 1 and positive(set(canon_set(tcfg.guards_at(clr_[0].id)))) == positive({canon_fact("self.tilt_settle_ms_remaining", False), canon_fact("self.machine.game", True)})
+    chk.ob("DOM-20", "the end of a tilt clears the game's tilted flag whenever a game exists (nothing else decides)", ok, td.where(),
+           detail="guards %s" % sorted(tcfg.guards_at(clr_[0].id).items()) if clr_ else "no reset", construct=td.ident, text="tilted flag cleared at tilt end")
+    rel = [n for n, c in tcfg.calls_named("clear") if src(c.func.value) == "self.ball_ending_tilted_queue"]
+    rmh = [n for n, c in tcfg.calls_named("remove_handlers_by_keys")]
+    ok = len(rel) == 1 and len(rmh) == 1 and tcfg.guards_at(rmh[0].id).get("self.tilt_settle_ms_remaining") is False and \
+        len([k for k in tcfg.guards_at(rmh[0].id) if "settle" not in k]) == 0
+    chk.ob("DOM-20", "the end of a tilt releases a held ball_ending queue and removes the tilt's own event handlers", ok, td.where(), construct=td.ident,
+           text="tilt end clean-up")
     # a tilt is ignored while the game says it is already tilted: that flag must not survive a game (the game mode object is reused);
     # every flag of the game that makes tilt() return early is reset at game start, before anything is awaited
     early = set()
@@ -387,6 +404,7 @@ def battery():
         M("tilted flag survives the game", "mpf/modes/game/code/game.py", "        self.tilted = False\n        self.ending = False\n        self.num_players = 0", "        self.ending = False\n        self.num_players = 0", "DOM-20"),
         M("tilt during ball start is wiped", "mpf/modes/game/code/game.py", "        self._end_ball_event.clear()\n        await self._start_ball(is_extra_ball)", "        await self._start_ball(is_extra_ball)\n        self._end_ball_event.clear()", "DOM-20"),
         M("ball search gives up by stopping the game mode directly", "mpf/core/ball_search.py", "                self.info_log(\"Ending the game\")\n                self.machine.game.end_game()", "                self.info_log(\"Ending the game\")\n                self.machine.game.stop()", "DOM-20"),
+        M("tilted flag cleared only with a held ball_ending queue", "mpf/modes/tilt/code/tilt.py", "            if self.machine.game:\n                self.machine.game.tilted = False\n", "            if self.machine.game and self.ball_ending_tilted_queue:\n                self.machine.game.tilted = False\n", "DOM-20"),
     ]
 
 
